@@ -4,7 +4,7 @@
    +sendDataV2, one direction of a transfer).  All statements are for protocol >= 3 (cP3 cf = true):
    older protocols have no pause handling. *)
 From Trzsz Require Import Base.Bytes Gen.Consts Gen.Skel_pause Gen.Skel_pause2 Model.Pause Model.PauseDown Model.PauseProbe
-  Proofs.Pause Proofs.PauseComp Proofs.PauseSim Proofs.PauseHang Proofs.PauseDown Proofs.PauseDownSim Proofs.PauseFinal Proofs.PauseFinalSim Proofs.PauseProbe.
+  Proofs.Pause Proofs.PauseComp Proofs.PauseSim Proofs.PauseHang Proofs.PauseDown Proofs.PauseDownSim Proofs.PauseFinal Proofs.PauseFinalSim Proofs.PauseProbe Model.PauseSend Proofs.PauseSend.
 From Coq Require Import ZArith.
 
 (* the source still has the control structure the model transcribes (regenerated on every run) *)
@@ -409,6 +409,45 @@ Print Assumptions C18_skel2_matches.
 Theorem C18_consts2 : pause_ignore_chunk_count = (pause_ack_window + 2)%N /\ pause_recv_ackchan_cap = 100%N.
 Proof. exact pause2_consts_ok. Qed.
 Print Assumptions C18_consts2.
+
+(* ====================== the wire sender at CHUNK granularity ======================
+   pipelineSendData takes encoded blocks from its queue and writes each as ONE chunk, or -- when the chunk size
+   (t.bufferSize) has meanwhile shrunk below the block, after an acknowledgement that took >= 2 s -- cuts it into
+   several chunks; the pause check sits in sendDataV2, in front of EVERY chunk.  The clause "while paused the paused
+   side sends no further file data (keep-alive lines take its place)" on every sending path: for every sequence of
+   events without a resume -- ticks, the goroutine's own moves, blocks handed over, changes of the chunk size at any
+   moment (so a block in hand may be re-split differently), acknowledgements taken from the window, stop, further
+   pause requests -- from ANY state of a pausing sender, no chunk is written (whole frame, piece of a re-split block,
+   the zero-length finish chunk alike), except the single chunk of a sender that had already passed its check when
+   the pause began, and then exactly that one. *)
+Theorem C18_no_data_while_paused_chunks : forall cf W, cP3 cf = true ->
+  forall es s s' os, bd_pausing s = true -> ~ In BResumeEv es -> brun cf W s es = (s', os) ->
+  (bs_count_chunks os + bs_passed (bd_ph s') <= bs_passed (bd_ph s))%nat /\ bd_pausing s' = true.
+Proof. exact bs_no_data_while_paused. Qed.
+Print Assumptions C18_no_data_while_paused_chunks.
+
+Theorem C18_nothing_while_paused_chunks : forall cf W, cP3 cf = true ->
+  forall es s s' os, bd_pausing s = true -> bs_passed (bd_ph s) = 0%nat -> ~ In BResumeEv es ->
+  brun cf W s es = (s', os) -> bs_chunks os = [].
+Proof. exact bs_nothing_while_paused. Qed.
+Print Assumptions C18_nothing_while_paused_chunks.
+
+(* re-splitting conserves the bytes, wherever pauses fall and whatever the chunk size does *)
+Theorem C18_resplit_conserves_bytes : forall cf W es s s' os, bd_stopped s = false -> ~ In BStopEv es ->
+  (forall n, ~ In (BEnqueue n) es) -> bs_wf (bd_ph s) -> brun cf W s es = (s', os) ->
+  (nsum (bs_chunks os) + bs_left (bd_ph s') + nsum (bd_queue s') = bs_left (bd_ph s) + nsum (bd_queue s))%N.
+Proof. exact bs_bytes_conserved. Qed.
+Print Assumptions C18_resplit_conserves_bytes.
+
+(* non-vacuity: two blocks of 8 bytes, the chunk size drops to 3 after the first; the second is cut 3+3+2; a pause
+   that begins after its first piece: the two remaining pieces wait for the resume, keep-alives take their place *)
+Example C18_resplit_pause_example :
+  let cf := mkCfg 10 1 1 true in
+  let s0 := mkBsd false false [8; 8]%N true 8%N BSTake O in
+  snd (brun cf 5 s0 [BNext; BCall; BWrite; BPush; BSetBuf 3; BNext; BNext; BCall; BWrite; BPush;
+                     BPauseEv; BNext; BCall; BTick; BTick; BResumeEv; BTick; BWrite; BPush; BNext; BCall; BWrite; BPush; BNext])
+  = [BOChunk true 8; BOChunk false 3; BOKeep; BOKeep; BOKeep; BOChunk false 3; BOChunk false 2]%N.
+Proof. vm_compute. reflexivity. Qed.
 
 (* non-vacuity: a reader that is reachable, blocked in a read, pausing; a keep-alive; a paused sender
    already past its check *)
